@@ -34,6 +34,8 @@ RULE = (
     "asyncio adapter (send_all / send_all_from_iterable, <= 3 chunks quick, pipe capacities 1/3/64, peer draining or resetting at any loop iteration, then a second send on the same transport); the blocking TLS socket (SSLStreamTransport, TLS 1.2/1.3, client/server) "
     "sending one packet of 40000 / 100000 bytes (thorough also 300000) as one chunk or five chunks with empty ones over a real socketpair with the minimum send buffer, the peer "
     "reading everything / 3000 bytes / nothing at every select() in which the library waits for writability (deviation bound 3 for 40000 bytes, 2 for the larger packets), timeouts {inf, 1.0, 0} x retry {inf, 0.3}; "
+    "a chunk generator raising after 0..4 chunks on eight subjects (blocking socket paths, both endpoints, asyncio adapter, async TLS and an endpoint over it) followed by a second send: "
+    "nothing of the failed packet may be transmitted after the failure was reported (props/c04_genfail.py); "
     "distinct_nontrivial = distinct (config, final observation) pairs of executions with at least one non-default answer"
 )
 ASSUMPTIONS = [
@@ -241,9 +243,10 @@ def jobs(tier: str) -> list[dict]:
         for cap in (1, 3, 64):
             for part in range(4):
                 out.append({"kind": "async", "path": path, "cap": cap, "part": part, "parts": 4, "tier": tier})
-    from . import c04_tls
+    from . import c04_genfail, c04_tls
 
     out += c04_tls.jobs(tier)
+    out += c04_genfail.jobs(tier)
     return out
 
 
@@ -467,6 +470,10 @@ def run_job(job: dict) -> JobResult:
         from . import c04_tls
 
         return c04_tls.run_job(job)
+    if job["kind"] == "genfail":
+        from . import c04_genfail
+
+        return c04_genfail.run_job(job)
     res = JobResult()
     if job["kind"] == "sync":
         run_sync_job(job, res)
@@ -481,6 +488,10 @@ def replay(doc: dict) -> tuple[bool, str]:
         from . import c04_tls
 
         return c04_tls.replay(doc)
+    if rp.get("part") == "genfail":
+        from . import c04_genfail
+
+        return c04_genfail.replay(doc)
     ctx = Ctx(rp["choices"])
     if rp["kind"] == "sync":
         obs = run_sync(ctx, rp["cfg"])
